@@ -53,33 +53,43 @@ theorem switches_transcribed :
     Gen.C16.predefineSwitch = ["finally: del predefined[flow_scope]"] ∧
     Gen.C16.dynDepthSwitch = ["finally: inf.dynamic_params_depth -= 1"] := by decide
 
-/-- `Name.__eq__` of the source, spelled out -/
+/-- `Name.__eq__` of the source, spelled out: position, path, name AND the api type of the inner
+name (a class and an instance of that class are different definitions) -/
 theorem nameEq_src (a b : Name) :
-    nameEq fields a b = true ↔ a.startPos = b.startPos ∧ a.path = b.path ∧ a.name = b.name := by
+    nameEq fields a b = true ↔
+      a.startPos = b.startPos ∧ a.path = b.path ∧ a.name = b.name ∧ a.apiType = b.apiType := by
   simp [nameEq, eqField, Gen.C16.eqFields]
 
-theorem nameEq_refl (a : Name) : nameEq fields a a = true := (nameEq_src a a).mpr ⟨rfl, rfl, rfl⟩
+theorem nameEq_refl (a : Name) : nameEq fields a a = true := (nameEq_src a a).mpr ⟨rfl, rfl, rfl, rfl⟩
 
 theorem nameEq_symm (a b : Name) : nameEq fields a b = nameEq fields b a := by
   rw [Bool.eq_iff_iff, nameEq_src, nameEq_src]
-  constructor <;> (rintro ⟨h1, h2, h3⟩; exact ⟨h1.symm, h2.symm, h3.symm⟩)
+  constructor <;> (rintro ⟨h1, h2, h3, h4⟩; exact ⟨h1.symm, h2.symm, h3.symm, h4.symm⟩)
+
+/-- `__eq__`-equal names show the same to a user: `__eq__` compares everything the API shows -/
+theorem nameEq_iff_visible (a b : Name) : nameEq fields a b = true ↔ a.visible = b.visible := by
+  rw [nameEq_src]
+  simp only [Name.visible, Prod.mk.injEq]
+  constructor
+  · rintro ⟨h1, h2, h3, h4⟩; exact ⟨h2, h1, h3, h4⟩
+  · rintro ⟨h2, h1, h3, h4⟩; exact ⟨h1, h2, h3, h4⟩
 
 /-! ## the sort key fits the equality -/
 
 /-- equal names have equal keys: the key reads nothing but the equality fields -/
 theorem key_congr (a b : Name) (h : nameEq fields a b = true) : sortKey comps a = sortKey comps b := by
-  obtain ⟨h1, h2, h3⟩ := (nameEq_src a b).mp h
-  simp [sortKey, keyComponent, Gen.C16.sortKeyComponents, h1, h2, h3]
+  obtain ⟨h1, h2, h3, h4⟩ := (nameEq_src a b).mp h
+  simp [sortKey, keyComponent, Gen.C16.sortKeyComponents, h1, h2, h3, h4]
 
 /-- `key_injective`: on well-formed names (1-based lines, non-empty path strings) the key tuple
-`(str(path or ''), line or 0, column or 0, name)` determines the `__eq__` class -/
+`(str(path or ''), line or 0, column or 0, name, api_type)` determines the `__eq__` class -/
 theorem key_injective (a b : Name) (ha : WF a) (hb : WF b)
     (h : sortKey comps a = sortKey comps b) : nameEq fields a b = true := by
   rw [nameEq_src]
   simp only [sortKey, keyComponent, Gen.C16.sortKeyComponents, List.map_cons, List.map_nil,
     List.cons.injEq, and_true] at h
-  obtain ⟨hp, hl, hc, hn⟩ := h
-  refine ⟨?_, ?_, hn⟩
+  obtain ⟨hp, hl, hc, hn, ht⟩ := h
+  refine ⟨?_, ?_, hn, ht⟩
   · cases hsa : a.startPos with
     | none =>
       cases hsb : b.startPos with
@@ -116,60 +126,86 @@ theorem key_injective (a b : Name) (ha : WF a) (hb : WF b)
 /-- FULL (without `WF`) is false: `line or 0` cannot tell `start_pos = None` from a (never
 occurring) position in line 0 -/
 theorem key_injective_needs_wf :
-    sortKey comps ⟨none, none, [120], 0⟩ = sortKey comps ⟨some (0, 0), none, [120], 0⟩ ∧
-    nameEq fields ⟨none, none, [120], 0⟩ ⟨some (0, 0), none, [120], 0⟩ = false := by decide
+    sortKey comps ⟨none, none, [120], [], 0⟩ = sortKey comps ⟨some (0, 0), none, [120], [], 0⟩ ∧
+    nameEq fields ⟨none, none, [120], [], 0⟩ ⟨some (0, 0), none, [120], [], 0⟩ = false := by decide
 
-example : WF ⟨some (1, 0), some [47, 97], [120], 0⟩ := ⟨fun p h => by cases h; decide, by decide⟩
+example : WF ⟨some (1, 0), some [47, 97], [120], [], 0⟩ := ⟨fun p h => by cases h; decide, by decide⟩
 
 /-! ## `sorted_definitions(set(defs))` does not depend on iteration order -/
 
-/-- `sorted_defs_perm_invariant`: let `l₁ ~ l₂` be the same definitions in two orders (two hash
-seeds, two heap layouts) and `s₁`, `s₂` ANY iteration orders of `set(l₁)`, `set(l₂)` (whichever
-representative of an `__eq__` class survived). Then the sorted results agree position by position
-on everything `__eq__` looks at: path, line, column, name. -/
-theorem sorted_defs_perm_invariant (l₁ l₂ s₁ s₂ : List Name) (hwf : ∀ a ∈ l₁, WF a)
+/-- the sorted results of any two iteration orders agree, position by position, on the sort key -/
+theorem sorted_defs_keys_invariant (l₁ l₂ s₁ s₂ : List Name) (hwf : ∀ a ∈ l₁, WF a)
     (hperm : l₁.Perm l₂) (h₁ : IsSetOf fields l₁ s₁) (h₂ : IsSetOf fields l₂ s₂) :
     (sortedDefinitions comps s₁).map (sortKey comps) = (sortedDefinitions comps s₂).map (sortKey comps) :=
   sorted_keys_invariant comps fields WF key_injective key_congr l₁ l₂ s₁ s₂ hwf hperm h₁ h₂
 
-/-- … and the results are *identical* when `__eq__`-equal names are indistinguishable
-(`_partial`: the hypothesis `hsingle` is needed, see the witness below) -/
-theorem sorted_defs_perm_invariant_partial (l₁ l₂ s₁ s₂ : List Name) (hwf : ∀ a ∈ l₁, WF a)
-    (hsingle : ∀ a ∈ l₁, ∀ b ∈ l₁, nameEq fields a b = true → a = b)
+/-- `sorted_defs_perm_invariant` (FULL): let `l₁ ~ l₂` be the same definitions in two orders (two
+hash seeds, two heap layouts) and `s₁`, `s₂` ANY iteration orders of `set(l₁)`, `set(l₂)` (whichever
+representative of an `__eq__` class survived). Then the sorted results show the same to a user,
+position by position: same path, line, column, name and type - same length, same order. No
+hypothesis about which names are equal is needed any more: with the api type in `__eq__`/`__hash__`
+equal names are indistinguishable, and with it in the sort key the order of a class and its
+instance is fixed. -/
+theorem sorted_defs_perm_invariant (l₁ l₂ s₁ s₂ : List Name) (hwf : ∀ a ∈ l₁, WF a)
     (hperm : l₁.Perm l₂) (h₁ : IsSetOf fields l₁ s₁) (h₂ : IsSetOf fields l₂ s₂) :
-    sortedDefinitions comps s₁ = sortedDefinitions comps s₂ := by
-  apply map_eq_of_inj (sortKey comps) _ _ (sorted_defs_perm_invariant l₁ l₂ s₁ s₂ hwf hperm h₁ h₂)
+    (sortedDefinitions comps s₁).map Name.visible = (sortedDefinitions comps s₂).map Name.visible := by
+  apply map_eq_of_determines (sortKey comps) Name.visible _ _
+    (sorted_defs_keys_invariant l₁ l₂ s₁ s₂ hwf hperm h₁ h₂)
   intro a ha b hb hk
   have ha' : a ∈ l₁ := h₁.sub a ((List.mergeSort_perm s₁ _).mem_iff.mp ha)
   have hb' : b ∈ l₁ := hperm.mem_iff.mpr (h₂.sub b ((List.mergeSort_perm s₂ _).mem_iff.mp hb))
-  exact hsingle a ha' b hb' (key_injective a b (hwf a ha') (hwf b hb') hk)
+  exact (nameEq_iff_visible a b).mp (key_injective a b (hwf a ha') (hwf b hb') hk)
 
 /-- the executable `set()` (first representative wins) is one of the orders quantified over -/
 theorem dedup_is_set (l : List Name) : IsSetOf fields l (dedupFirst fields [] l) :=
   isSetOf_dedupFirst fields nameEq_refl nameEq_symm l
 
-/-- so `Script.infer`'s result is invariant under permutation of the inferred values -/
-theorem infer_result_perm_invariant (l₁ l₂ : List Name) (hwf : ∀ a ∈ l₁, WF a)
-    (hsingle : ∀ a ∈ l₁, ∀ b ∈ l₁, nameEq fields a b = true → a = b) (hperm : l₁.Perm l₂) :
-    inferResult comps fields l₁ = inferResult comps fields l₂ :=
-  sorted_defs_perm_invariant_partial l₁ l₂ _ _ hwf hsingle hperm (dedup_is_set l₁) (dedup_is_set l₂)
+/-- so what `Script.infer` shows is invariant under permutation of the inferred values -/
+theorem infer_result_perm_invariant (l₁ l₂ : List Name) (hwf : ∀ a ∈ l₁, WF a) (hperm : l₁.Perm l₂) :
+    (inferResult comps fields l₁).map Name.visible = (inferResult comps fields l₂).map Name.visible :=
+  sorted_defs_perm_invariant l₁ l₂ _ _ hwf hperm (dedup_is_set l₁) (dedup_is_set l₂)
 
-/-- class `A` at (1,6) and an instance of `A`: `__eq__`-equal, different `type` -/
-def clsA : Name := ⟨some (1, 6), none, [65], 0⟩
-def instA : Name := ⟨some (1, 6), none, [65], 1⟩
+/-- class `A` at (1,6) and an instance of `A` -/
+def clsA : Name := ⟨some (1, 6), none, [65], "class".toList.map Char.toNat, 0⟩
+def instA : Name := ⟨some (1, 6), none, [65], "instance".toList.map Char.toNat, 1⟩
 
-/-- FULL (without `hsingle`) is false: when the inferred values are the class `A` and an instance
-of `A`, which of the two `Script.infer` reports depends on the iteration order of the value set
-(reproduced on the real code: known finding C16-eq-class-representative) -/
-theorem sorted_defs_full_witness :
-    [clsA, instA].Perm [instA, clsA] ∧ nameEq fields clsA instA = true ∧
-    inferResult comps fields [clsA, instA] = [clsA] ∧
-    inferResult comps fields [instA, clsA] = [instA] := by
-  have d1 : dedupFirst fields [] [clsA, instA] = [clsA] := by decide
-  have d2 : dedupFirst fields [] [instA, clsA] = [instA] := by decide
-  refine ⟨List.Perm.swap _ _ _, by decide, ?_, ?_⟩
+/-- the repaired behaviour: when the inferred values are the class `A` and an instance of `A`,
+`Script.infer` reports both, the class first, in whichever order the value set is iterated -/
+theorem class_and_instance_both_reported :
+    nameEq fields clsA instA = false ∧
+    inferResult comps fields [clsA, instA] = [clsA, instA] ∧
+    inferResult comps fields [instA, clsA] = [clsA, instA] := by
+  have d1 : dedupFirst fields [] [clsA, instA] = [clsA, instA] := by decide
+  have d2 : dedupFirst fields [] [instA, clsA] = [instA, clsA] := by decide
+  refine ⟨by decide, ?_, ?_⟩
+  · rw [inferResult, d1, sortedDefinitions, mergeSort_pair]; decide
+  · rw [inferResult, d2, sortedDefinitions, mergeSort_pair]; decide
+
+/-- `__eq__`/`__hash__` and the sort key as they were before the repair -/
+def fieldsWithoutType : List String := ["_name.start_pos", "module_path", "name", "_inference_state"]
+def compsWithoutType : List String := ["path_or_empty", "line_or_0", "column_or_0", "name"]
+
+/-- both parts of the repair are needed. Without the api type in `__eq__`/`__hash__` the class and
+the instance are one element of `set(defs)` and which of them is reported depends on the iteration
+order (the former finding C16-eq-class-representative); with it in `__eq__`/`__hash__` but not in the
+sort key both are reported, but in an order that depends on the iteration order (Python's `sorted`
+is stable). -/
+theorem type_needed_in_eq_and_in_key :
+    [clsA, instA].Perm [instA, clsA] ∧
+    (inferResult comps fieldsWithoutType [clsA, instA]).map Name.visible = [clsA.visible] ∧
+    (inferResult comps fieldsWithoutType [instA, clsA]).map Name.visible = [instA.visible] ∧
+    (inferResult compsWithoutType fields [clsA, instA]).map Name.visible = [clsA.visible, instA.visible] ∧
+    (inferResult compsWithoutType fields [instA, clsA]).map Name.visible = [instA.visible, clsA.visible] ∧
+    clsA.visible ≠ instA.visible := by
+  have d1 : dedupFirst fieldsWithoutType [] [clsA, instA] = [clsA] := by decide
+  have d2 : dedupFirst fieldsWithoutType [] [instA, clsA] = [instA] := by decide
+  have d3 : dedupFirst fields [] [clsA, instA] = [clsA, instA] := by decide
+  have d4 : dedupFirst fields [] [instA, clsA] = [instA, clsA] := by decide
+  refine ⟨List.Perm.swap _ _ _, ?_, ?_, ?_, ?_, by decide⟩
   · simp [inferResult, d1, sortedDefinitions]
   · simp [inferResult, d2, sortedDefinitions]
+  · rw [inferResult, d3, sortedDefinitions, mergeSort_pair]; decide
+  · rw [inferResult, d4, sortedDefinitions, mergeSort_pair]; decide
 
 /-- `goto` returns `list(set(...))`: whatever the two iteration orders, the results are the same
 *set* up to `__eq__` -/
